@@ -143,6 +143,85 @@ func retention(c *evid.Ctx) {
 	}
 }
 
+// ---- the non-rotating file across re-opens ----------------------------------------------------------------------
+
+// reopen: with rotation switched off the logger writes to one undated file, which it opens again
+// whenever rotation is toggled and whenever another logger object (or a restarted process) uses the
+// same home, id and object name: whatever the file already holds stays, new lines go behind it.
+// Every history of length <= 3 over {log a line, rotation off + cycle, rotation on + cycle, a second
+// logger object takes over} is run on the in-memory file system (writes honour the open flags).
+func reopen(c *evid.Ctx) {
+	vrt.Policy = vrt.PolicySuppressed
+	defer func() { vrt.Policy = vrt.PolicyReal }()
+	acts := []string{"log", "off", "on", "second-logger"}
+	var rec func(h []string)
+	rec = func(h []string) {
+		if len(h) > 0 {
+			c.Count("reopen_histories", 1)
+			c.Count("evaluations", 1)
+			mem := vos.NewMemFS()
+			vos.Use(mem)
+			vtime.SetVirtual(time.Date(2024, 3, 10, 12, 0, 0, 0, time.UTC))
+			mem.MkdirAll(logsDir)
+			fl := newLogger(logger.LOG_LEVEL_WARN)
+			fl.VerifSet(0, 7, true)
+			fl.VerifInitCycle()
+			rotation := true
+			n := 0
+			var want []string // lines expected in the undated file, in order
+			logLine := func() {
+				n++
+				msg := fmt.Sprintf("reopen-line-%d-payload", n)
+				fl.Warn(msg)
+				if !rotation {
+					want = append(want, msg)
+				}
+			}
+			for _, a := range h {
+				switch a {
+				case "log":
+					logLine()
+				case "off", "on":
+					rotation = a == "on"
+					fl.VerifSet(0, 7, rotation)
+					fl.VerifCycle()
+				case "second-logger":
+					// a new object starts as run() starts it (rotation on, the constructor's default); the
+					// configuration then arrives and the next cycle follows it
+					fl = newLogger(logger.LOG_LEVEL_WARN)
+					fl.VerifInitCycle()
+					fl.VerifSet(0, 7, rotation)
+					fl.VerifCycle()
+				}
+			}
+			logLine()
+			data, _ := mem.ReadFile(logsDir + "/whatap-boot.log")
+			var got []string
+			for _, l := range strings.Split(string(data), "\n") {
+				if i := strings.Index(l, "reopen-line-"); i >= 0 {
+					got = append(got, l[i:])
+				}
+			}
+			ok := len(got) == len(want)
+			for i := 0; ok && i < len(want); i++ {
+				ok = strings.HasPrefix(got[i], want[i])
+			}
+			if !ok {
+				c.Violation("C17:reopen:lines", fmt.Sprintf("history %v then one more line: the undated log file holds %v, the lines logged while rotation was off are %v (in that order)", h, got, want), map[string]interface{}{"engine": "E2", "history": h})
+			}
+			vos.Use(nil)
+			vtime.ClearVirtual()
+		}
+		if len(h) == 3 {
+			return
+		}
+		for _, a := range acts {
+			rec(append(append([]string{}, h...), a))
+		}
+	}
+	rec(nil)
+}
+
 // ---- suppression cache across its growth steps ---------------------------------------------------------------
 
 // suppression: n distinct ids are logged at one instant, then the last, the first and the middle id are
@@ -581,6 +660,7 @@ func Run(c *evid.Ctx) {
 	retention(c)
 	readWindow(c)
 	suppression(c)
+	reopen(c)
 	shard.Spawn(c, 16, true)
 	// the premise of the enumeration above (atomic blocks = data-race-free code) is checked in the
 	// race mode of the explorer (race.go)
